@@ -180,7 +180,14 @@ def run(world, tier, info, only=None):
             same = ce == ci
             ck.ob("R2", "explicit-eq-inferred:%s@%d" % (p, k), same, site(sm, t["l"]),
                   "Explicit and Inferred reach the same arm" if same else "Explicit and Inferred are treated differently by this switch (arms %s / %s)" % (ce, ci))
-        for bi, t in g.calls(r"<veryl_analyzer::symbol::ClockDomain as core::cmp::PartialEq>::(eq|ne)$"):
+        eqs = []
+        for bi, t in g.calls(r"PartialEq.*::(eq|ne)$"):
+            a0 = t["args"][0]
+            ty = g.ty(a0[1][0]) if a0[0] != "k" else ""
+            if re.search(r"^&*veryl_analyzer::symbol::ClockDomain$", ty.replace("&mut ", "&").replace(" ", "")) or \
+                    re.search(r"<veryl_analyzer::symbol::ClockDomain as core::cmp::PartialEq>::(eq|ne)$", t.get("callee") or ""):
+                eqs.append((bi, t))
+        for bi, t in eqs:
             okc = False
             why = []
             for a in t["args"]:
@@ -188,7 +195,7 @@ def run(world, tier, info, only=None):
                 for r, pth in cands:
                     if r[0] == "agg":
                         st = g.blocks[r[2]]["s"][r[3]]
-                        if st[2][1].get("variant") in ("Implicit", "None") and (st[2][1].get("adt") or "").endswith("ClockDomain"):
+                        if isinstance(st[2][1], dict) and st[2][1].get("variant") in ("Implicit", "None") and (st[2][1].get("adt") or "").endswith("ClockDomain"):
                             okc = True
                     elif r[0] == "const":
                         # promoted constant `&ClockDomain::Implicit`
@@ -285,7 +292,7 @@ def _short(p):
 
 
 def _ordinal(g, bi):
-    order = sorted(g.calls(r"ClockDomain as core::cmp::PartialEq>::(eq|ne)$"), key=lambda x: (x[1]["l"], x[0]))
+    order = sorted(g.calls(r"PartialEq.*::(eq|ne)$"), key=lambda x: (x[1]["l"], x[0]))
     for i, (b, _) in enumerate(order):
         if b == bi:
             return i + 1
